@@ -1263,6 +1263,13 @@ class ConnectionBase(object):
             self.stats.dropped += 1
             return False
 
+        # a datagram older than the ack window can never be acknowledged
+        # (and may be a replay): drop it
+        newest = self.bitfield_pkt.current_seqnum
+        if newest != 0 and newest.diff(pkt.hdr.seq) > self.bitfield_pkt.nbits:
+            self.stats.dropped += 1
+            return False
+
         try:
             # TODO: log warning for packet flooding
             # if inserting dropped unacked bits then those packets will time out
